@@ -75,6 +75,36 @@ Qed.
 Lemma memb_none_nil k : memb None k = memb (Some []) k.
 Proof. reflexivity. Qed.
 
+(* ---------- the main caller's view of the registry cell ----------
+   The index it fetched is still there, or it was an index without a single referrer
+   that another tag's update deleted (EExtDrop): as a set nothing changed. *)
+Definition droppable (o : option index) : Prop :=
+  match o with Some x => forallb is_empty x = true | None => True end.
+Definition view (r o : option index) : Prop := r = o \/ (r = None /\ droppable o).
+
+Lemma empty_index_memb x k : forallb is_empty x = true -> memb (Some x) k = false.
+Proof.
+  intro H. unfold memb. simpl. destruct (k =? 0) eqn:E; simpl; auto.
+  apply N.eqb_neq in E. destruct (has_key k x) eqn:Hk; auto. exfalso.
+  apply has_key_In in Hk. unfold keys in Hk. apply in_map_iff in Hk as (d & Ed & Hd).
+  rewrite forallb_forall in H. specialize (H d Hd). unfold is_empty in H. apply N.eqb_eq in H. congruence.
+Qed.
+
+Lemma view_memb r o k : view r o -> memb r k = memb o k.
+Proof.
+  intros [->|[-> D]]; auto. destruct o as [x|]; auto. simpl in D.
+  pose proof (empty_index_memb x k D) as E. unfold memb in *. simpl in *. rewrite E. now rewrite andb_false_r.
+Qed.
+
+Lemma view_refl r : view r r.
+Proof. now left. Qed.
+
+Lemma view_drop x o : forallb is_empty x = true -> view (Some x) o -> view None o.
+Proof. intros H [<-|[E _]]; [right; split; auto|discriminate]. Qed.
+
+Lemma view_some r x o : r = Some x -> view r o -> o = Some x.
+Proof. intros -> [<-|[E _]]; [reflexivity|discriminate]. Qed.
+
 (* ---------- the invariant ---------- *)
 Record InvV (reg0 : option index) (s : state) : Prop := {
   v_idle : forall t, In t (lin s) -> pcs s t <> Idle /\ (forall c, pcs s t <> Got c);
@@ -87,13 +117,13 @@ Record InvV (reg0 : option index) (s : state) : Prop := {
   v_ne_got : forall t c, pcs s t = Got c -> dkey (cdesc c) <> 0;
   v_ne_items : forall t c, In (t, c) (items s) -> dkey (cdesc c) <> 0;
   v_ne_pend : forall t c, In (t, c) (pending s) -> dkey (cdesc c) <> 0;
-  n_prepared : forall t o, pcs s t = Prepared (Some o) -> reg s = o;
+  n_prepared : forall t o, pcs s t = Prepared (Some o) -> view (reg s) o;
   n_put : forall t new o, pcs s t = NeedPut new o ->
-      reg s = o /\ apply_changes (idx o) (map snd (items s)) = Updated new;
+      view (reg s) o /\ apply_changes (idx o) (map snd (items s)) = Updated new;
   n_del0 : forall t oi, pcs s t = NeedDel oi false ->
-      reg s = Some oi /\ apply_changes oi (map snd (items s)) = Updated [];
+      view (reg s) (Some oi) /\ apply_changes oi (map snd (items s)) = Updated [];
   n_del1 : forall t oi, pcs s t = NeedDel oi true ->
-      exists new, reg s = Some new /\ index_eqb new oi = false;
+      exists new, view (reg s) (Some new) /\ index_eqb new oi = false;
   g_store : forall x, In x (store s) ->
       reg s = Some x \/ In x (junk s) \/ exists t a, pcs s t = NeedDel x a
 }.
@@ -101,7 +131,10 @@ Record InvV (reg0 : option index) (s : state) : Prop := {
 Lemma invV_init r0 st0 : InvV r0 (init r0 st0).
 Proof.
   constructor; simpl; intros; try discriminate; try tauto; try (now constructor); auto.
-  destruct H; discriminate.
+  - destruct H; discriminate.
+  - destruct (is_cur r0 x) eqn:E.
+    + left. unfold is_cur in E. destruct r0 as [c|]; [|discriminate]. apply index_eqb_true in E. now subst.
+    + right; left. apply filter_In. split; auto. now rewrite E.
 Qed.
 
 Ltac solveV t :=
@@ -203,7 +236,7 @@ Proof.
   destruct (v_main _ _ V t Hm) as [Hl Hf]. rewrite Hpc in Hf. simpl in Hf.
   destruct V. constructor; unfold set_pc; simpl.
   all: try solve [solveV t | gkeep t].
-  intros t0 o Hx. tcase t0 t; [|eauto]. destruct f; [discriminate|]. injection Hx as <-. reflexivity.
+  intros t0 o Hx. tcase t0 t; [|eauto]. destruct f; [discriminate|]. injection Hx as <-. apply view_refl.
 Qed.
 
 Lemma stepV_done sg r0 s t s' :
@@ -233,10 +266,10 @@ Proof.
 Qed.
 
 Definition view_ok (s : state) (p : pc) (r' : option index) : Prop :=
-  (forall o, p = Prepared (Some o) -> r' = o) /\
-  (forall new o, p = NeedPut new o -> r' = o /\ apply_changes (idx o) (map snd (items s)) = Updated new) /\
-  (forall oi, p = NeedDel oi false -> r' = Some oi /\ apply_changes oi (map snd (items s)) = Updated []) /\
-  (forall oi, p = NeedDel oi true -> exists new, r' = Some new /\ index_eqb new oi = false).
+  (forall o, p = Prepared (Some o) -> view r' o) /\
+  (forall new o, p = NeedPut new o -> view r' o /\ apply_changes (idx o) (map snd (items s)) = Updated new) /\
+  (forall oi, p = NeedDel oi false -> view r' (Some oi) /\ apply_changes oi (map snd (items s)) = Updated []) /\
+  (forall oi, p = NeedDel oi true -> exists new, view r' (Some new) /\ index_eqb new oi = false).
 
 Section MainStep.
   Variables (r0 : option index) (s : state) (t : tid) (p : pc) (cm : bool)
@@ -357,13 +390,14 @@ Proof.
   assert (Hst' : forall x, In x (store s) -> reg s = Some x \/ In x (junk s)).
   { intros x Hx. destruct (Hst x Hx) as [E|[E|(a & E)]]; auto. congruence. }
   destruct old as [o|].
-  - assert (Hr : reg s = o) by (eapply (n_prepared _ _ V); eauto).
+  - assert (Hr : view (reg s) o) by (eapply (n_prepared _ _ V); eauto).
+    assert (Hrm : forall k, memb (reg s) k = memb o k) by (intro k; now apply view_memb).
     destruct (apply_changes (idx o) (map snd (items s))) as [|new] eqn:Ea.
     + injection H as <-. unfold set_pc, add_lin, set_committed, batch; simpl; fold (batch s).
       apply invV_main_apply; auto.
       * view_triv.
       * intros x Hx. destruct (Hst' x Hx); auto.
-      * intro k. rewrite Hr. apply (apply_noupdate_effect (idx o)); auto.
+      * intro k. rewrite Hrm. apply (apply_noupdate_effect (idx o)); auto.
     + destruct (negb (is_nil new) || sg) eqn:Epush.
       * injection H as <-. unfold set_pc, set_committed; simpl.
         apply invV_main_keep; auto; try (simpl; rewrite Ha; reflexivity).
@@ -380,7 +414,7 @@ Proof.
            apply invV_main_apply; auto.
            ++ view_triv.
            ++ intros x Hx. destruct (Hst' x Hx); auto.
-           ++ intro k. rewrite Hr. apply (apply_updated_effect [] _ [] Hne Ea).
+           ++ intro k. rewrite Hrm. apply (apply_updated_effect [] _ [] Hne Ea).
   - injection H as <-. unfold set_pc, set_committed; simpl.
     apply invV_main_keep; auto; try (simpl; rewrite Ha; reflexivity).
     + view_triv.
@@ -407,14 +441,14 @@ Proof.
     apply invV_main_apply; auto.
     + unfold after_put. destruct sg; [reflexivity|]. destruct o; reflexivity.
     + unfold after_put. destruct sg; [view_triv|]. destruct o as [oi|]; [|view_triv].
-      view_triv. injection H as <-. exists nw. split; auto.
+      view_triv. injection H as <-. exists nw. split; [apply view_refl|].
       apply (apply_updated_neq oi _ nw Hne Hap).
     + intros x [<-|Hx]; auto. destruct (Hst' x Hx) as [E|E].
-      * rewrite Hr in E. subst o. unfold after_put. rewrite ?E. destruct sg; [right; left; now left|].
+      * pose proof (view_some _ _ _ E Hr) as Eo. subst o. unfold after_put. destruct sg; [right; left; now left|].
         right; right. eauto.
       * right; left. destruct sg; auto. destruct o; simpl; auto.
     + unfold after_put. destruct sg; [reflexivity|]. destruct o; reflexivity.
-    + intro k. rewrite Hr. apply (apply_updated_effect (idx o) _ nw Hne Hap).
+    + intro k. rewrite (view_memb _ _ k Hr). apply (apply_updated_effect (idx o) _ nw Hne Hap).
 Qed.
 
 Lemma stepV_del sg r0 s t f s' :
@@ -434,23 +468,31 @@ Proof.
       * rewrite Hpc in E. injection E as <- _. right; left. now left.
     + rewrite Ha. destruct ap; reflexivity.
   - destruct ap.
-    + destruct (n_del1 _ _ V t oi Hpc) as (new & Hr & Hneq).
-      unfold set_pc, set_reg; simpl. rewrite Hr, Hneq. apply invV_main_keep; auto.
-      * view_triv.
-      * intros x Hx. apply filter_In in Hx as [Hx Hx2]. apply negb_true_iff in Hx2.
+    + destruct (n_del1 _ _ V t oi Hpc) as (new & Hv & Hneq).
+      assert (Hstore : forall r', r' = reg s -> forall x,
+                In x (filter (fun x0 => negb (index_eqb x0 oi)) (store s)) ->
+                r' = Some x \/ In x (junk s) \/ exists a, Completing ROk = NeedDel x a).
+      { intros r' -> x Hx. apply filter_In in Hx as [Hx Hx2]. apply negb_true_iff in Hx2.
         destruct (Hst x Hx) as [E|[E|(a & E)]]; auto.
-        -- left. congruence.
-        -- rewrite Hpc in E. injection E as <- _. rewrite index_eqb_refl in Hx2. discriminate.
-      * intro k. now rewrite Hr.
-    + destruct (n_del0 _ _ V t oi Hpc) as (Hr & Hap).
-      unfold set_pc, add_lin, set_reg, batch; simpl; fold (batch s). rewrite Hr, index_eqb_refl.
-      apply invV_main_apply; auto.
-      * view_triv.
-      * intros x Hx. apply filter_In in Hx as [Hx Hx2]. apply negb_true_iff in Hx2.
+        rewrite Hpc in E. injection E as <- _. rewrite index_eqb_refl in Hx2. discriminate. }
+      destruct Hv as [Hr|[Hr Hd]]; unfold set_pc, set_reg; simpl; rewrite Hr; rewrite ?Hneq;
+        (apply invV_main_keep; auto).
+      all: try solve [view_triv].
+      all: try solve [intros x Hx; exact (Hstore _ (eq_sym Hr) x Hx)].
+      all: try solve [intro k; now rewrite Hr].
+    + destruct (n_del0 _ _ V t oi Hpc) as (Hv & Hap).
+      assert (Hstore : forall x,
+                In x (filter (fun x0 => negb (index_eqb x0 oi)) (store s)) ->
+                None = Some x \/ In x (junk s) \/ exists a, Completing ROk = NeedDel x a).
+      { intros x Hx. apply filter_In in Hx as [Hx Hx2]. apply negb_true_iff in Hx2.
         destruct (Hst x Hx) as [E|[E|(a & E)]]; auto.
-        -- rewrite Hr in E. injection E as <-. rewrite index_eqb_refl in Hx2. discriminate.
-        -- rewrite Hpc in E. injection E as <- _. rewrite index_eqb_refl in Hx2. discriminate.
-      * intro k. rewrite Hr. apply (apply_updated_effect oi _ [] Hne Hap).
+        - pose proof (view_some _ _ _ E Hv) as Eo. injection Eo as <-. rewrite index_eqb_refl in Hx2. discriminate.
+        - rewrite Hpc in E. injection E as <- _. rewrite index_eqb_refl in Hx2. discriminate. }
+      assert (Hset : forall k, memb None k = member_after k (memb (reg s) k) (map snd (items s))).
+      { intro k. rewrite (view_memb _ _ k Hv). apply (apply_updated_effect oi _ [] Hne Hap). }
+      destruct Hv as [Hr|[Hr Hd]]; unfold set_pc, add_lin, set_reg, batch; simpl; fold (batch s);
+        rewrite Hr; rewrite ?index_eqb_refl;
+        (apply invV_main_apply; auto; view_triv).
 Qed.
 
 Lemma flag_completing r b : flag (Completing r) = b -> (b = true <-> r <> RErr).
@@ -499,6 +541,25 @@ Proof.
   - intros x Hx. destruct (store_cases _ _ _ I V Hm x Hx) as [E|[E|(a & E)]]; auto. congruence.
 Qed.
 
+Lemma stepV_extdrop sg r0 s s' :
+  InvV r0 s -> step sg s EExtDrop = Some s' -> InvV r0 s'.
+Proof.
+  intros V H. simpl in H. destruct (reg s) as [x|] eqn:Er; [|discriminate].
+  destruct (forallb is_empty x) eqn:Ex; [|discriminate]. injection H as <-.
+  destruct V. constructor; unfold set_reg; simpl; auto.
+  - intro k. rewrite <- v_set0. rewrite ?Er. exact (view_memb None (Some x) k (or_intror (conj eq_refl Ex))).
+  - intros t o Hx. pose proof (n_prepared0 t o Hx) as Hv. rewrite Er in Hv. now apply (view_drop x).
+  - intros t new o Hx. destruct (n_put0 t new o Hx) as [Hv B]. rewrite Er in Hv. split; auto.
+    now apply (view_drop x).
+  - intros t oi Hx. destruct (n_del2 t oi Hx) as [Hv B]. rewrite Er in Hv. split; auto.
+    now apply (view_drop x).
+  - intros t oi Hx. destruct (n_del3 t oi Hx) as (new & Hv & B). rewrite Er in Hv. exists new. split; auto.
+    now apply (view_drop x).
+  - intros y Hy. apply filter_In in Hy as [Hy Hy2]. apply negb_true_iff in Hy2.
+    destruct (g_store0 y Hy) as [E|[E|E]]; auto.
+    rewrite ?Er in E. injection E as <-. rewrite index_eqb_refl in Hy2. discriminate.
+Qed.
+
 Lemma stepV sg r0 s e s' : InvS s -> InvV r0 s -> step sg s e = Some s' -> InvV r0 s'.
 Proof.
   intros I V H. destruct e.
@@ -511,6 +572,7 @@ Proof.
   - eapply stepV_del; eauto.
   - eapply stepV_complete; eauto.
   - eapply stepV_done; eauto.
+  - eapply stepV_extdrop; eauto.
 Qed.
 
 (* ---------- every reachable state ---------- *)
